@@ -6,6 +6,7 @@ Property theorems only.  Model: `Frequenz.Model.Matryoshka` (hand-written sweep)
 -/
 import Frequenz.Lemmas.Matryoshka
 import Frequenz.Lemmas.Bucket
+import Frequenz.Lemmas.MatryoshkaTie
 
 open Matryoshka BoundsLemmas
 
@@ -167,4 +168,45 @@ example : C03_InDomain C03_exSb := by
 example : calcTarget C03_exSb (C03_bucketOf 60 [.propose C03_exP1old, .propose C03_exP2, .propose C03_exP1]) = 50 := by
   decide +kernel
 example : calcTarget C03_exSb (C03_bucketOf 60 [.propose C03_exP2, .propose C03_exP1]) = 50 := by
+  decide +kernel
+
+/-- **The hand-written model is the current source text** (`_calc_target_power`, `calculate_target_power`).
+`Extracted.Matryoshka.*` is machine-translated from `_matryoshka.py` on every run (prelude and ONE iteration of the
+loop body of `_calc_target_power`, `_validate_component_ids`, the absent-bucket test and the store/return test of
+`calculate_target_power`; the extractor also checks that the loop iterates over `sorted(proposals, reverse=True)`).
+For ALL arguments: (1) `initSt`/`effExcl` are the extracted prelude; (2) `step` on a not-yet-stopped state is the
+extracted loop body (`stopped` = the iteration executed `break`), and a stopped state is left alone; (3) hence
+`calcTarget` is prelude + `for`-with-`break` over the extracted body + `return target_power`; (4) the guards of
+`Mgr.calc` are the extracted conditions, and `Mgr.calc` is the composition of them with `calcTarget`. -/
+theorem C03_model_is_source :
+    (∀ sb : SystemBounds,
+      Extracted.Matryoshka.calcInit sb.incl sb.excl =
+        ((initSt sb).lo, (initSt sb).hi, effExcl sb, (initSt sb).target) ∧ (initSt sb).stopped = false) ∧
+    (∀ (ex : Option Bounds) (s : St) (p : Proposal), s.stopped = false →
+      Extracted.Matryoshka.calcStep ex s.lo s.hi s.target p.pref p.lo p.hi =
+        ((step ex s p).lo, (step ex s p).hi, (step ex s p).target, (step ex s p).stopped)) ∧
+    (∀ (ex : Option Bounds) (s : St) (p : Proposal), s.stopped = true → step ex s p = s) ∧
+    (∀ (sb : SystemBounds) (bucket : List Proposal),
+      calcTarget sb bucket = MatryoshkaTie.srcCalcTarget sb.incl sb.excl (sortDesc bucket)) ∧
+    (∀ (m : Mgr) (sb : SystemBounds),
+      Extracted.Matryoshka.validateFails m.bucket.isSome sb.incl sb.excl ↔
+        (m.bucket.isNone ∧ sb.incl.isNone ∧ sb.excl.isNone)) ∧
+    (∀ b : Option (List Proposal), Extracted.Matryoshka.bucketAbsent b ↔ b = none) ∧
+    (∀ (must : Bool) (last : Option Rat) (t : Rat),
+      Extracted.Matryoshka.storeNew must last t ↔ (must = true ∨ last ≠ some t)) ∧
+    (∀ (m : Mgr) (p : Option Proposal) (sb : SystemBounds) (must : Bool),
+      m.calc p sb must =
+        if Extracted.Matryoshka.validateFails m.bucket.isSome sb.incl sb.excl then (m, none)
+        else if Extracted.Matryoshka.bucketAbsent (m.newBucket p) then (m, none)
+        else
+          let b := (m.newBucket p).getD []
+          if Extracted.Matryoshka.storeNew must m.last (calcTarget sb b) then
+            ({ bucket := some b, last := some (calcTarget sb b) }, some (calcTarget sb b))
+          else ({ m with bucket := some b }, none)) :=
+  ⟨MatryoshkaTie.calcInit_eq, MatryoshkaTie.calcStep_eq, MatryoshkaTie.step_stopped,
+   MatryoshkaTie.calcTarget_eq_source, MatryoshkaTie.validateFails_iff, MatryoshkaTie.bucketAbsent_iff,
+   MatryoshkaTie.storeNew_iff, MatryoshkaTie.calc_eq⟩
+
+/-- Non-vacuity: the source-assembled loop computes the non-trivial target of the example bucket. -/
+example : MatryoshkaTie.srcCalcTarget C03_exSb.incl C03_exSb.excl (sortDesc [C03_exP2, C03_exP1]) = 50 := by
   decide +kernel
